@@ -971,11 +971,13 @@ func initCase(t []string) *result {
 	nSets, _ := strconv.Atoi(t[2])
 	seed, _ := strconv.ParseInt(t[3], 10, 64)
 	hetero := t[4] == "1"
+	sameLen := t[4] == "2" // different parameter values per set, but the SAME state length
 	factory := sim.Catalog[t[0]]
 	desc := factory().Description()
 	rng := rand.New(rand.NewSource(seed))
 	shared := map[string]float64{}
-	if !hetero {
+	bucket := 1 + rng.Intn(3)
+	if !hetero && !sameLen {
 		switch t[0] {
 		case "GR4J":
 			shared["X4"] = 0.5 + 3.5*rng.Float64()
@@ -989,6 +991,14 @@ func initCase(t []string) *result {
 		sets[c] = genParamSet(t[0], desc, rng, shared, drawMode{kind: "std"}, c)
 		if hetero && t[0] == "Lag" {
 			sets[c].scalars["timeLag"] = float64(rng.Intn(5))
+		}
+		if sameLen {
+			switch t[0] {
+			case "GR4J": // x4 in (b-1/2, b): same ceil(x4) and ceil(2*x4)
+				sets[c].scalars["X4"] = float64(bucket) - 0.45 + 0.4*rng.Float64()
+			case "Lag": // same int(timeLag)
+				sets[c].scalars["timeLag"] = float64(bucket) + 0.9*rng.Float64()
+			}
 		}
 		for d, v := range sets[c].dims {
 			if v > maxd[d] {
@@ -1020,6 +1030,33 @@ func initCase(t []string) *result {
 		lens = append(lens, len(row))
 	}
 	res.Extra["state_lengths"] = lens
+	// what the faithful model needs: the parameter matrix and the init function as a table
+	// (parameter set -> state row of the single-cell InitialiseStates on that set's column)
+	res.Extra["nP"] = nP
+	var phex []string
+	for _, v := range P {
+		phex = append(phex, hex(v))
+	}
+	res.Extra["p_hex"] = phex
+	var rowsHex [][]string
+	for c := 0; c < nSets; c++ {
+		Pi := make([]float64, nP)
+		for r := 0; r < nP; r++ {
+			Pi[r] = P[r*nSets+c]
+		}
+		pa, _, _ := goBackend{}.make2([]int{nP, 1}, Pi)
+		var dims []int
+		for _, d := range desc.Dimensions {
+			dims = append(dims, maxd[d])
+		}
+		s1 := prepModel(t[0], pa, dims).InitialiseStates(1)
+		rh := []string{}
+		for j := 0; j < s1.Len(1); j++ {
+			rh = append(rh, hex(s1.Get2(0, j)))
+		}
+		rowsHex = append(rowsHex, rh)
+	}
+	res.Extra["set_rows_hex"] = rowsHex
 	same := true
 	for _, l := range lens {
 		if l != lens[0] {
@@ -1039,6 +1076,13 @@ func initCase(t []string) *result {
 		st := m.InitialiseStates(n)
 		w := st.Len(1)
 		res.Extra["matrix"] = []int{st.Len(0), w}
+		var mh []string
+		for i := 0; i < st.Len(0); i++ {
+			for j := 0; j < w; j++ {
+				mh = append(mh, hex(st.Get2(i, j)))
+			}
+		}
+		res.Extra["matrix_hex"] = mh
 		for i := 0; i < n; i++ {
 			if len(singles[i]) != w {
 				fail("cell %d: matrix row has %d columns, its single-cell initial state has %d", i, w, len(singles[i]))
@@ -1300,6 +1344,8 @@ func main() {
 			r = initSeq(f[1:])
 		case "PARAMSEQ":
 			r = paramSeq(f[1:])
+		case "PGEN":
+			r = pgen(f[1:])
 		default:
 			r = &result{Cmd: f[0], Fails: []string{"unknown command"}}
 		}
